@@ -63,8 +63,33 @@ def sortKeys : List (List Char × JV) → List (List Char × JV)
   | [] => []
   | x :: xs => insertKey x (sortKeys xs)
 
-/-- encoder.go:286-295 `writeIndent` -/
-def nl (depth : Nat) : List Char := '\n' :: List.replicate depth ' '
+/-- the last `n` bytes of the buffer: `e.w.Bytes()[e.w.Len()-n:]` -/
+def lastN (n : Nat) (buf : List Char) : List Char := buf.drop (buf.length - n)
+
+/-- encoder.go:302-307: `for n -= l; n > 0; n, l = n-l, l*2 { if n < l { l = n }; e.w.Write(e.w.Bytes()[e.w.Len()-l:]) }`
+    — the indentation is doubled by copying the tail of the buffer; fuel = n -/
+def indentLoop : Nat → List Char → Nat → Nat → List Char
+  | 0, buf, _, _ => buf
+  | f + 1, buf, n, l =>
+    if n = 0 then buf else
+    let l' := if n < l then n else l
+    indentLoop f (buf ++ lastN l' buf) (n - l') (l' * 2)
+
+/-- encoder.go:297-309 `writeIndentInternal(n, spaces)` on the buffer `buf`; `L = len(spaces)` -/
+def writeIndentInternal (buf : List Char) (n : Nat) (ch : Char) (L : Nat) : List Char :=
+  if n ≤ L then buf ++ List.replicate n ch
+  else indentLoop (n - L) (buf ++ List.replicate L ch) (n - L) L
+
+/-- encoder.go:286-295 `writeIndent` on the buffer `buf` (32 spaces / 16 tabs constants) -/
+def writeIndentBuf (tab : Bool) (buf : List Char) (depth : Nat) : List Char :=
+  let buf := buf ++ ['\n']
+  if depth > 0 then
+    (if tab then writeIndentInternal buf depth '\t' 16 else writeIndentInternal buf depth ' ' 32)
+  else buf
+
+/-- what `writeIndent` appends (`Tab == false`, as fq configures it); independent of the buffer by
+    `indent_exact` -/
+def nl (depth : Nat) : List Char := writeIndentBuf false [] depth
 
 mutual
 /-- `encode indent depth v`; `indent = 0` is compact -/
